@@ -11,7 +11,7 @@
 from __future__ import annotations
 import numpy as np
 from ..domains import IntSet
-from .c05 import compare, eval_guard, stub_decisions, id_classes, shape_key
+from .c05 import canon_cell, compare, eval_guard, stub_decisions, id_classes, shape_key
 from .fsm import get_fsm
 
 
@@ -38,15 +38,21 @@ def step(cells, state, sent):
         mask, _ = eval_guard(c, K, N, S, sp, svv, idv if idv is not None else 0, 0)
         if mask.any():
             hits.append(c)
-    if len(hits) != 1:
-        return ("?%d" % len(hits), state, None)
-    c = hits[0]
-    nsid = sid if c.post_sid == "sid" else idv
-    ns = {"s": s, "k": k, "0": 0}.get(c.post_s, -1)
-    P = (tag,)
-    nD = {"D": D, "D+P": D + P, "P": P, "[]": ()}.get(c.post_D)
-    delivered = {"P": P, "D+P": D + P, None: None}.get(c.delivered)
-    return (c.result, (nsid, ns, nD), delivered)
+    if not hits:
+        return [("?0", state, None)]
+    outs = []
+    for c in hits:
+        nsid = sid if c.post_sid == "sid" else idv
+        ns = {"s": s, "k": k, "0": 0}.get(c.post_s, -1)
+        P = (tag,)
+        nD = {"D": D, "D+P": D + P, "P": P, "[]": ()}.get(c.post_D)
+        delivered = {"P": P, "D+P": D + P, None: None}.get(c.delivered)
+        o = (c.result, (nsid, ns, nD), delivered)
+        if o not in outs:
+            outs.append(o)
+    # several transitions with different effects: the sentence shapes (tag block, talker, ...) behave
+    # differently; every one of them is a possible behaviour and is explored
+    return outs
 
 
 def explore(chk, cfg, cells):
@@ -66,40 +72,40 @@ def explore(chk, cfg, cells):
             groups = sorted(set(g for (g, _, _) in st[2]))
             g = (max(groups) + 1 if groups else 0) if k == 1 else (st[2][-1][0] if st[2] else -1)
             tag = (g, k, i)
-            res, nst, delivered = step(cells, st, (n, k, i, tag))
-            ntrans += 1
-            if res.startswith("?"):
-                chk.ob(False, "C06/explore/ambiguous/%s/n%d,k%d" % (res, n, k), "reassembly [%s]: %s extracted transitions apply to state %r, sentence n=%d k=%d id=%r" % (cfg, res[1:], st, n, k, i))
-                continue
-            accepted = res in ("ok:Incomplete", "ok:Complete")
-            if accepted and k >= 2:
-                sid, s, D = st
-                ok = s == k - 1 and sid == i and len(D) == s and all(t[1] == j + 1 and t[0] == D[0][0] and t[2] == i for j, t in enumerate(D)) and s >= 1
-                if not ok:
-                    viol += 1
-                chk.ob(ok, "C06/explore/continues/state=%r/n%d,k%d,id%r" % (st, n, k, i),
-                       "reassembly [%s]: fragment %d of %d (id %r) is accepted in state sid=%r s=%d D=%r, which is not an open group at fragment %d with that id" % (cfg, k, n, i, st[0], st[1], st[2], k - 1))
-            if res == "ok:Complete" and n != 1 and delivered is not None:
-                ok = len(delivered) == k and all(t[1] == j + 1 and t[0] == delivered[0][0] for j, t in enumerate(delivered))
-                chk.ob(ok, "C06/explore/delivered/%r" % (delivered,), "reassembly [%s]: a multi-fragment message is delivered from %r, not fragments 1..%d of one group" % (cfg, delivered, k),
-                       sample={"state": repr(st), "sentence": [n, k, i], "delivered": repr(delivered)})
-            # canonical renaming of groups
-            D2 = nst[2]
-            order = []
-            for t in D2:
-                if t[0] not in order:
-                    order.append(t[0])
-            D2 = tuple((order.index(t[0]), t[1], t[2]) for t in D2)
-            nst = (nst[0], nst[1], D2)
-            if len(D2) > 4 or len(seen) > 3000:
-                # a 4-fragment group never needs more than 3 stored fragments
-                chk.ob(False, "C06/explore/unbounded", "reassembly [%s]: the stored data is not bounded by the group size (state space does not close): %r" % (cfg, D2))
-                if len(seen) > 3000:
-                    return len(seen), ntrans
-                continue
-            if nst not in seen:
-                seen.add(nst)
-                work.append(nst)
+            for (res, nst, delivered) in step(cells, st, (n, k, i, tag)):
+                ntrans += 1
+                if res.startswith("?"):
+                    chk.ob(False, "C06/explore/ambiguous/%s/n%d,k%d" % (res, n, k), "reassembly [%s]: %s extracted transitions apply to state %r, sentence n=%d k=%d id=%r" % (cfg, res[1:], st, n, k, i))
+                    continue
+                accepted = res in ("ok:Incomplete", "ok:Complete")
+                if accepted and k >= 2:
+                    sid, s, D = st
+                    ok = s == k - 1 and sid == i and len(D) == s and all(t[1] == j + 1 and t[0] == D[0][0] and t[2] == i for j, t in enumerate(D)) and s >= 1
+                    if not ok:
+                        viol += 1
+                    chk.ob(ok, "C06/explore/continues/state=%r/n%d,k%d,id%r" % (st, n, k, i),
+                           "reassembly [%s]: fragment %d of %d (id %r) is accepted in state sid=%r s=%d D=%r, which is not an open group at fragment %d with that id" % (cfg, k, n, i, st[0], st[1], st[2], k - 1))
+                if res == "ok:Complete" and n != 1 and delivered is not None:
+                    ok = len(delivered) == k and all(t[1] == j + 1 and t[0] == delivered[0][0] for j, t in enumerate(delivered))
+                    chk.ob(ok, "C06/explore/delivered/%r" % (delivered,), "reassembly [%s]: a multi-fragment message is delivered from %r, not fragments 1..%d of one group" % (cfg, delivered, k),
+                           sample={"state": repr(st), "sentence": [n, k, i], "delivered": repr(delivered)})
+                # canonical renaming of groups
+                D2 = nst[2]
+                order = []
+                for t in D2:
+                    if t[0] not in order:
+                        order.append(t[0])
+                D2 = tuple((order.index(t[0]), t[1], t[2]) for t in D2)
+                nst = (nst[0], nst[1], D2)
+                if len(D2) > 4 or len(seen) > 3000:
+                    # a 4-fragment group never needs more than 3 stored fragments
+                    chk.ob(False, "C06/explore/unbounded", "reassembly [%s]: the stored data is not bounded by the group size (state space does not close): %r" % (cfg, D2))
+                    if len(seen) > 3000:
+                        return len(seen), ntrans
+                    continue
+                if nst not in seen:
+                    seen.add(nst)
+                    work.append(nst)
     return len(seen), ntrans
 
 
@@ -129,7 +135,13 @@ def run(ctx, chk):
         without = [cs for k, cs in groups.items() if cs[0].atoms["idv"] is None]
         chk.ob(bool(with_id) and bool(without), "C06/explore/shapes", "missing grammar shapes with/without sequence id [%s]" % cfg)
         if with_id and without:
-            cells = with_id[0] + without[0]
+            # one representative group per distinct transition relation
+            cells, seen_sig = [], set()
+            for cs in with_id + without:
+                sig = (cs[0].atoms["idv"] is not None, tuple(sorted(map(repr, (canon_cell(c) for c in cs)))))
+                if sig not in seen_sig:
+                    seen_sig.add(sig)
+                    cells += cs
             ns, nt = explore(chk, cfg, cells)
             tot_s += ns
             tot_t += nt
